@@ -37,17 +37,35 @@ var rpcCdc = func() *amino.Codec {
 type TxIndex struct {
 	mu      sync.Mutex
 	heights map[string]int64
+	results map[string]abci.ResponseDeliverTx
 	Lookups int64
 }
 
-func NewTxIndex() *TxIndex { return &TxIndex{heights: map[string]int64{}} }
+func NewTxIndex() *TxIndex {
+	return &TxIndex{heights: map[string]int64{}, results: map[string]abci.ResponseDeliverTx{}}
+}
 
-func (ix *TxIndex) Add(tx []byte, height int64) {
+// Add indexes a transaction of a committed block together with its DeliverTx response (Tendermint
+// indexes every transaction of a block, whatever its result code).
+func (ix *TxIndex) Add(tx []byte, height int64, res abci.ResponseDeliverTx) {
 	ix.mu.Lock()
 	defer ix.mu.Unlock()
 	h := string(tmtypes.Tx(tx).Hash())
 	if _, ok := ix.heights[h]; !ok {
 		ix.heights[h] = height
+		ix.results[h] = res
+	}
+}
+
+// Restore adds the entries of a Tendermint-side snapshot (keys are tx hashes).
+func (ix *TxIndex) Restore(st TMState) {
+	ix.mu.Lock()
+	defer ix.mu.Unlock()
+	for k, v := range st.Indexed {
+		if _, ok := ix.heights[k]; !ok {
+			ix.heights[k] = v
+			ix.results[k] = st.IndexedRes[k]
+		}
 	}
 }
 
@@ -131,12 +149,13 @@ func NewFakeNode(ix *TxIndex) *FakeNode {
 		ix.mu.Lock()
 		ix.Lookups++
 		h, ok := ix.heights[string(hash)]
+		txres := ix.results[string(hash)]
 		ix.mu.Unlock()
 		if !ok {
 			fmt.Fprintf(w, `{"jsonrpc":"2.0","id":%s,"error":{"code":-32603,"message":"Internal error","data":"Tx (%X) not found"}}`, id, hash)
 			return
 		}
-		res := ctypes.ResultTx{Hash: hash, Height: h, TxResult: abci.ResponseDeliverTx{}}
+		res := ctypes.ResultTx{Hash: hash, Height: h, TxResult: txres}
 		bz, err := rpcCdc.MarshalJSON(res)
 		if err != nil {
 			panic(err)
